@@ -132,10 +132,10 @@ def cases(tier: str, seed: int) -> list[dict]:
             # an L and a U shaped path: east-west legs next to north-south legs
             fixed.append([[x0 + 1, y0 + 1], [x1 - 1, y0 + 1], [x1 - 1, y1 - 1]])
             fixed.append([[x0 + 1, y1 - 1], [x0 + 1, y0 + 1], [x1 - 1, y0 + 1], [x1 - 1, y1 - 1]])
-            for p in fixed:
-                ev.append({"a": "Transect", "path": p, "var": "temp"})
+            for kp, p in enumerate(fixed):
+                ev.append({"a": "Transect", "path": p, "var": "temp" if kp % 2 == 0 else "fort"})
             for _ in range(6 if tier == "quick" else 30):
-                ev.append({"a": "Transect", "path": random_path(rng, bbox, rng.randint(2, 5)), "var": rng.choice(["temp", ""])})
+                ev.append({"a": "Transect", "path": random_path(rng, bbox, rng.randint(2, 5)), "var": rng.choice(["temp", "fort", ""])})
             out.append({"src": "gen", "world": w, "events": ev})
     vias = ["file", "memory", "dask", "emsopen", "memory"]      # how the dataset is held (viafile.hold)
     for k, c in enumerate(out):
